@@ -70,7 +70,11 @@ StubDetSigYield(Y, dY=None, param_names=(), src_factor=None)
                                              -> DetSigYield for one (dataset, group): Y (n_src_of_group,) array or
                                                 callable(params_of_group)->array; dY: dict local-name -> array|callable;
                                                 src_factor: None | callable(src_recarray)->(n_src,) multiplied onto Y and dY
-                                                (the yield then follows the source: src_recarray has fields ra, dec)
+                                                (the yield then follows the source: src_recarray has fields ra, dec);
+                                                share: True | 'strided' | 'readonly' -> the last evaluation is memoised and the
+                                                stored array itself is returned when asked again for the same sources/parameters
+                                                (keyword yield_share of make_detsigyield_service / make_weight_services /
+                                                build_stacked_analysis; share of TableDetSigYieldBuilder); ``.snapshot()``
 StubDetSigYieldService(shg_mgr, arr)         -> DetSigYieldService holding the (J, G) object array ``arr``
 make_detsigyield_service(shg_mgr, Y, dY=None, src_factor=None)
                                              -> StubDetSigYieldService from a yield table Y (J, K) (array or
@@ -164,7 +168,7 @@ def make_datasets(cfg, J):
     return (dataset_list, data_list)
 
 
-def TableDetSigYieldBuilder(cfg, table, use_factory=False, bid=None):
+def TableDetSigYieldBuilder(cfg, table, use_factory=False, bid=None, share=False):
     """A real DetSigYieldBuilder whose detector signal yields are prescribed: table[dataset name][source name] -> Y.
     The yield it builds depends on the *dataset* and the *source hypothesis group* it is asked for (so one shared builder
     serves several datasets) and on the builder itself (so that it matters which builder is asked).  use_factory=True
@@ -176,6 +180,7 @@ def TableDetSigYieldBuilder(cfg, table, use_factory=False, bid=None):
         def __init__(self, row, **kwargs):
             super().__init__(param_names=[], **kwargs)
             self._row = dict(row)
+            self._memo = None
 
         def sources_to_recarray(self, sources):
             arr = np.empty((len(sources),), dtype=[('Y', np.float64)])
@@ -184,7 +189,12 @@ def TableDetSigYieldBuilder(cfg, table, use_factory=False, bid=None):
             return arr
 
         def __call__(self, src_recarray, src_params_recarray=None):
-            return (np.array(src_recarray['Y'], dtype=np.float64), {})
+            if not share:
+                return (np.array(src_recarray['Y'], dtype=np.float64), {})
+            key = np.asarray(src_recarray['Y']).tobytes()
+            if self._memo is None or self._memo[0] != key:          # a yield object keeping its last evaluation
+                self._memo = (key, np.array(src_recarray['Y'], dtype=np.float64))
+            return (self._memo[1], {})
 
     class _TableDetSigYieldBuilder(DetSigYieldBuilder):
         def __init__(self):
@@ -462,12 +472,22 @@ def _stub_classes():
             return self.table[eid]
 
     class StubDetSigYield(DetSigYield):
-        def __init__(self, Y, dY=None, param_names=(), src_factor=None):
+        def __init__(self, Y, dY=None, param_names=(), src_factor=None, share=False):
             # the abstract base wants a Dataset / FluxModel / livetime; they are not used by the services
             self.Y = Y
             self.dY = dict(dY or {})
             self.src_factor = src_factor
-            self._param_names = tuple(param_names) or tuple(self.dY.keys())
+            # share: memoise the last evaluation and hand out the stored array itself (no copy) when asked again for
+            # the same sources / parameter values, as a DetSigYield with a cache does (True | 'strided' | 'readonly')
+            self.share = share if share in ('strided', 'readonly') else bool(share)
+            self._memo = None
+            self.param_names = tuple(param_names) or tuple(self.dY.keys())      # public property of DetSigYield
+
+        def snapshot(self):
+            parts = [] if callable(self.Y) else [np.asarray(self.Y, dtype=np.float64).tobytes()]
+            if self._memo is not None:
+                parts.append(np.asarray(self._memo[1]).tobytes())
+            return b'|'.join(parts)
 
         def sources_to_recarray(self, sources):
             rec = np.empty((len(sources),), dtype=[('ra', np.double), ('dec', np.double)])
@@ -477,6 +497,11 @@ def _stub_classes():
 
         def __call__(self, src_recarray, src_params_recarray):
             params = _params_dict(src_params_recarray)
+            key = None
+            if self.share:
+                key = (np.asarray(src_recarray).tobytes(), tuple((k, v.tobytes()) for k, v in sorted(params.items())))
+                if self._memo is not None and self._memo[0] == key:
+                    return (self._memo[1], self._memo[2])
             values = np.array(_val(self.Y, params), dtype=np.float64)
             fac = None
             if self.src_factor is not None:
@@ -494,6 +519,9 @@ def _stub_classes():
                 for g in np.unique(gp[gp > 0]):
                     arr = grads.setdefault(int(g) - 1, np.zeros((len(values),), dtype=np.float64))
                     arr += np.where(gp == g, dv, 0.0)
+            if self.share:
+                values = _layout(values, self.share)
+                self._memo = (key, values, grads)
             return (values, grads)
 
     class StubDetSigYieldService(DetSigYieldService):
@@ -530,8 +558,8 @@ def StubBkgPDF(cfg, B, share=False):
     return _stub_classes()['StubBkgPDF'](cfg, B, share=share)
 
 
-def StubDetSigYield(Y, dY=None, param_names=(), src_factor=None):
-    return _stub_classes()['StubDetSigYield'](Y, dY=dY, param_names=param_names, src_factor=src_factor)
+def StubDetSigYield(Y, dY=None, param_names=(), src_factor=None, share=False):
+    return _stub_classes()['StubDetSigYield'](Y, dY=dY, param_names=param_names, src_factor=src_factor, share=share)
 
 
 def StubDetSigYieldService(shg_mgr, arr):
@@ -557,7 +585,7 @@ def _slice_fn(x, j, sl, K):
     return f
 
 
-def make_detsigyield_service(shg_mgr, Y, dY=None, src_factor=None):
+def make_detsigyield_service(shg_mgr, Y, dY=None, src_factor=None, yield_share=False):
     K = shg_mgr.n_sources
     J = (np.asarray(Y(_nan_params(dY, K))) if callable(Y) else np.asarray(Y)).shape[0]
     G = shg_mgr.n_src_hypo_groups
@@ -568,7 +596,8 @@ def make_detsigyield_service(shg_mgr, Y, dY=None, src_factor=None):
             sl = slice(i, i + shg.n_sources)
             arr[j, g] = StubDetSigYield(
                 _slice_fn(Y, j, sl, K),
-                dY={name: _slice_fn(d, j, sl, K) for name, d in (dY or {}).items()}, src_factor=src_factor)
+                dY={name: _slice_fn(d, j, sl, K) for name, d in (dY or {}).items()}, src_factor=src_factor,
+                share=yield_share)
             i += shg.n_sources
     return StubDetSigYieldService(shg_mgr, arr)
 
@@ -577,9 +606,9 @@ def _nan_params(dY, K):
     return collections.defaultdict(lambda: np.full((K,), 1.0))
 
 
-def make_weight_services(shg_mgr, Y, dY=None, src_factor=None):
+def make_weight_services(shg_mgr, Y, dY=None, src_factor=None, yield_share=False):
     from skyllh.core.services import DatasetSignalWeightFactorsService, SrcDetSigYieldWeightsService
-    dsy = make_detsigyield_service(shg_mgr, Y, dY=dY, src_factor=src_factor)
+    dsy = make_detsigyield_service(shg_mgr, Y, dY=dY, src_factor=src_factor, yield_share=yield_share)
     sdw = SrcDetSigYieldWeightsService(detsigyield_service=dsy)
     dswf = DatasetSignalWeightFactorsService(src_detsigyield_weights_service=sdw)
     return (dsy, sdw, dswf)
@@ -610,7 +639,7 @@ Bundle = collections.namedtuple(
 
 def build_stacked_analysis(cfg, W, Y, Rs, Ns, group_sizes=None, params=(), masks=None, dR=None, dY=None,
                            weighted=True, index_field_name=None, event_fields=None, share=False, src_factor=None,
-                           ns_last=False):
+                           ns_last=False, yield_share=False):
     """J datasets, K sources.  W (K,), Y (J, K) [array or callable], Rs[j] (K, E_j) [array or callable],
     Ns[j] >= E_j total events, masks[j] None | (K, E_j) bool, dR: None | list over j of dict name -> table,
     event_fields: None | list over j of dict of extra event fields.  With weighted=False (K must be 1 or the
@@ -623,7 +652,7 @@ def build_stacked_analysis(cfg, W, Y, Rs, Ns, group_sizes=None, params=(), masks
     sources = make_sources(K, weights=W)
     shg_mgr = make_shg_mgr(cfg, sources, group_sizes=group_sizes)
     pmm = make_pmm(sources, params=params, ns_last=ns_last)
-    (dsy, sdw, dswf) = make_weight_services(shg_mgr, Y, dY=dY, src_factor=src_factor)
+    (dsy, sdw, dswf) = make_weight_services(shg_mgr, Y, dY=dY, src_factor=src_factor, yield_share=yield_share)
     tdms, inner, outer, llhs = [], [], [], []
     for j in range(J):
         Rj = Rs[j]
